@@ -93,7 +93,9 @@ fn main() {
         eprintln!("unknown property {id}");
         std::process::exit(2)
     };
-    let seed: u64 = std::env::var("VERIF_SEED").ok().and_then(|s| s.parse().ok()).unwrap_or(1);
+    // every run is a pure function of VERIF_SEED; the value is reduced to 40 bits so that the
+    // generators' seed arithmetic (seed * small constant + index) cannot overflow
+    let seed: u64 = std::env::var("VERIF_SEED").ok().and_then(|s| s.parse::<u64>().ok()).unwrap_or(1) & ((1 << 40) - 1);
     let threads: usize = std::env::var("VERIF_THREADS")
         .ok()
         .and_then(|s| s.parse().ok())
